@@ -6,7 +6,7 @@ CONSTANTS
   TTL = 5
   Validity = 2
   MaxClock = 6
-  NoReverify = FALSE
+  NoReverify = TRUE
   KeyIgnoresName = FALSE
 INVARIANTS ServedValid CacheHoldsOwnName CapacityRespected
 VIEW VIEW_
